@@ -294,5 +294,5 @@ pub fn run(ctx: &Ctx) {
     ctx.set_rule("For every template (18 hand-written ones, two of them writing 12 KB, covering text, output, raw, cycle, increment/decrement, tablerow, ifchanged with interrupts, include/render in loops, capture, failing reads; E1: generated templates of every writing construct nested in loops and conditionals with partials) the fault-free run through a counting sink yields W write calls and the byte string S; then EVERY k in 1..W is tried in three modes: error at call k (kinds Other / BrokenPipe / WriteZero), one byte accepted at call k then an error at the next call, Ok(0) at call k; plus two never-failing sinks that accept at most 1 / 3 bytes per call. Checked: render_to returns Err once a write failed, the sink is never called again, accepted bytes == the fault-free prefix up to that call, no panic, streamed bytes == render(), UTF-8. evaluations counts engine executions; non-trivial = W >= 3 and 1 < k < W; distinct by (template, k, mode).");
     ctx.assume("ErrorKind::Interrupted is never injected (write_all legitimately retries it)");
     ctx.cases("fixed_templates", fixed(), oracle);
-    ctx.random("generated_templates", ctx.pick(25_000, 250_000), strategy, oracle);
+    ctx.random("generated_templates", ctx.pick(25_000, 2_500_000), strategy, oracle);
 }
